@@ -219,7 +219,14 @@ def check_estimate(fx, R, cname, f, tag):
             if swapped:
                 R.violated('V2', inst + ':means', 'a mean is accumulated from the wrong set / index: %s' % (sorted(map(str, swapped)),), fx.rel(f['loc']), 'E-SIB')
             else:
-                R.undecided('V2', inst + ':means', 'mean/covariance accumulation idiom not recognised (two-pass sums expected); missing %s' % (sorted(map(str, (want - have) | (idx - haved)))[:2],))
+                verdict = one_pass_invariant(fx, f)
+                if verdict is None:
+                    R.undecided('V2', inst + ':means', 'mean/covariance accumulation idiom not recognised (two-pass sums expected); missing %s' % (sorted(map(str, (want - have) | (idx - haved)))[:2],))
+                elif verdict[0]:
+                    R.holds('V2', inst + ':means', 'one-pass recurrence preserves mean = S/n and cov = S_xy - S_x S_y / n (loop invariant, exact algebra)', fx.rel(f['loc']), 'E-ALG')
+                else:
+                    R.violated('V2', inst + ':one-pass-recurrence', 'the one-pass mean/covariance recurrence does not preserve the invariant cov_n = S_xy - S_x S_y / n: after one step %s is off by %s '
+                               '(scalar abstraction of the outer product; n items before the step)%s' % (verdict[1], verdict[2], ptag), fx.rel(f['loc']), 'E-ALG')
         pair_ok = (cb['$P1'], cb['$P2']) in ((('[]', 'sourcePoints', 'sourceIndex'), ('[]', 'targetPoints', 'targetIndex')), (('[]', 'targetPoints', 'targetIndex'), ('[]', 'sourcePoints', 'sourceIndex')))
     else:
         sm, tm = decls.get('sourceMean'), decls.get('targetMean')
@@ -283,6 +290,82 @@ def reflection_handled(ev, ri, factor_names, product_names, rhs, rhs_x, D, decls
         return None, 'rotation expression uses a determinant in a form not enumerated: %s' % (rhs,), None
     return False, ('the rotation block is assigned %s with no determinant correction on any path: for coplanar 3-D (or collinear-degenerate 2-D) point sets the SVD factors '
                    'can combine to a reflection (det = -1)' % pp_s(rhs)), None
+
+
+def one_pass_invariant(fx, f):
+    """Loop-invariant check of a one-pass mean / cross-covariance recurrence (scalar abstraction: points are scalars x, y).
+    Returns (True, ...) if one step maps (S_x/n, S_y/n, S_xy - S_x S_y/n) to the same forms at n+1, (False, var, residual) if not,
+    None if the body is not of that kind."""
+    import sympy as sp
+    from .. import sym
+    loops = [x for x in walk(f['body']) if x.get('k') == 'For']
+    if len(loops) != 1:
+        return None
+    L = loops[0]
+    ids = {}
+    for s_ in walk(f['body']):
+        if s_.get('k') == 'Decl':
+            for v in s_['vars']:
+                ids.setdefault(v['name'], v['id'])
+    need = ('sourceMean', 'targetMean', 'cov')
+    if any(n_ not in ids for n_ in need):
+        return None
+    init = L.get('init')
+    lv = [v for v in init['vars'] if const_value(v.get('init')) == 0] if init and init['k'] == 'Decl' else []
+    if len(lv) != 1:
+        return None
+    n = sp.Symbol('n', positive=True)
+    Sx, Sy, Sxy, x, y = sp.symbols('Sx Sy Sxy x y', real=True)
+
+    def hook(rd, e, st, ctx):
+        k = e.get('k')
+        if k == 'Op' and e.get('op') == '[]' and len(e.get('args', [])) == 2:
+            b = strip_casts(e['args'][0])
+            if b.get('k') == 'Ref' and b.get('name') == 'sourcePoints':
+                return [(x, st)]
+            if b.get('k') == 'Ref' and b.get('name') == 'targetPoints':
+                return [(y, st)]
+            if b.get('k') == 'Ref' and b.get('name') == 'correspondences':
+                return [({'sourcePointIndex': sp.Symbol('is'), 'targetPointIndex': sp.Symbol('it')}, st)]
+        if k == 'MCall' and e.get('m') in ('transpose', 'eval', 'array', 'matrix') and not e.get('inrepo'):
+            return rd.ev(e['obj'], st, ctx)
+        if k == 'MCall' and e.get('m') == 'size' and not e.get('inrepo'):
+            return [(sp.Symbol('N', positive=True), st)]
+        return NotImplemented
+    rd = sym.Reader(fx, call_hook=hook)
+    ctx = {'this': ('this',), 'fn': f, 'depth': 0}
+
+    def step(n_val, ms, mt, cv):
+        st = sym.State()
+        for p in f['params']:
+            st.locals[p['id']] = sp.Symbol('arg:' + p['name'])
+        st.locals[lv[0]['id']] = n_val
+        st.locals[ids['sourceMean']], st.locals[ids['targetMean']], st.locals[ids['cov']] = ms, mt, cv
+        out = rd.ex(L['b'], st, ctx)
+        if len(out) != 1:
+            return None
+        o = out[0]
+        return o.locals.get(ids['sourceMean']), o.locals.get(ids['targetMean']), o.locals.get(ids['cov'])
+    try:
+        gen = step(n, Sx / n, Sy / n, Sxy - Sx * Sy / n)
+        base = step(sp.Integer(0), sp.Integer(0), sp.Integer(0), sp.Integer(0))
+    except sym.Unsupported:
+        return None
+    if gen is None or base is None or any(not isinstance(v, sp.Basic) for v in gen + base):
+        return None
+    want = ((Sx + x) / (n + 1), (Sy + y) / (n + 1), Sxy + x * y - (Sx + x) * (Sy + y) / (n + 1))
+    for name, got, w in zip(need, gen, want):
+        r = sp.simplify(got - w)
+        if r != 0:
+            # unchanged accumulators mean this is not a one-pass recurrence at all
+            if name != 'cov' and sp.simplify(got - {'sourceMean': Sx / n, 'targetMean': Sy / n}[name]) == 0:
+                return None
+            return (False, name, sp.factor(r))
+    for name, got, w in zip(need, base, (x, y, sp.Integer(0))):
+        r = sp.simplify(got - w)
+        if r != 0:
+            return (False, name + ' (first item)', r)
+    return (True, None, None)
 
 
 def contains_call(s, name):
